@@ -286,7 +286,9 @@ pub struct DbgYes;
 pub struct DbgNo;
 impl<T: Debug> DbgDyn<T> for DbgYes {
     fn dbg(&self, t: &T) -> Option<String> {
-        Some(format!("{:?}", t))
+        // every Debug rendering a caller can ask for: plain, pretty (what `dbg!` uses), hex, width/precision flags;
+        // the plain form comes first (its leading identifier is checked against the type name)
+        Some(format!("{:?}\u{1}{:#?}\u{1}{:x?}\u{1}{:#X?}\u{1}{:>40.3?}", t, t, t, t, t))
     }
 }
 impl<T> DbgDyn<T> for DbgNo {
